@@ -92,6 +92,13 @@ theorem CbInv.step {s : State} (h : CbInv s) (ht : TaskInv s) (st : Step) : CbIn
     · simp [hw]
     · simp [hw]
   | join w => exact h.of_eq rfl rfl rfl rfl
+  | notifyOne ow =>
+    cases ow with
+    | none => exact h.of_eq rfl rfl rfl rfl
+    | some w =>
+      refine CbInv.setPc_other ?_ w (by simp)
+      exact h.of_eq rfl rfl rfl rfl
+  | threadEnd w => exact h.setPc_other w (by simp)
   | cleanupRet => exact h.of_eq rfl rfl rfl rfl
   | loopRun =>
     simp only [Tbox.C05.step]
@@ -119,13 +126,16 @@ theorem CbInv.step {s : State} (h : CbInv s) (ht : TaskInv s) (st : Step) : CbIn
         simp only [List.mem_cons, not_or] at this ⊢
         exact ⟨⟨this.2.1, this.1⟩, this.2.2⟩
     · rename_i w q hq
-      exact h.weaken rfl (by rw [hq]; simp) rfl (fun _ _ => id)
+      split <;> exact h.weaken rfl (by rw [hq]; simp) rfl (fun _ _ => id)
     · rename_i q hq
       exact h.weaken rfl (by rw [hq]; simp) rfl (fun _ _ => id)
   | enter w =>
     simp only [Tbox.C05.step]
     split
-    · exact h.setPc_other w (by simp)
+    · split
+      · refine CbInv.setPc_other ?_ w (by simp)
+        exact h.of_eq rfl rfl rfl rfl
+      · exact h.setPc_other w (by simp)
     · exact (h.of_eq (s' := { s with idle := s.idle + 1 }) rfl rfl rfl rfl).afterPred w
   | block w => exact (h.of_eq (s' := { s with lock := false }) rfl rfl rfl rfl).setPc_other w (by simp)
   | wake w => exact h.setPc_other w (by simp)
@@ -212,9 +222,12 @@ theorem CbInv.step {s : State} (h : CbInv s) (ht : TaskInv s) (st : Step) : CbIn
     · refine CbInv.setPc_other ?_ w (by simp)
       exact h.weaken rfl (by simp) rfl (fun _ _ => id)
     · split
-      · exact h.setPc_other w (by simp)
       · refine CbInv.setPc_other ?_ w (by simp)
         exact h.weaken rfl (by simp) rfl (fun _ _ => id)
+      · split
+        · exact h.setPc_other w (by simp)
+        · refine CbInv.setPc_other ?_ w (by simp)
+          exact h.weaken rfl (by simp) rfl (fun _ _ => id)
 
 theorem CbInv.init (c : Cfg) : CbInv (init c) := by
   constructor
